@@ -94,6 +94,7 @@ fn main() {
         "C12" => props::c12::run(&mk("C12")),
         "C13" => props::c13::run(&mk("C13")),
         "C14" => props::c14::run(&mk("C14")),
+        "C15" => props::c15::run(&mk("C15")),
         "C16" => props::c16::run(&mk("C16")),
         "C18" => props::c18::run(&mk("C18")),
         "C20" => props::c20::run(&mk("C20")),
